@@ -258,10 +258,11 @@ func c11History(k *fw.K, quick bool) {
 		gAvg := p.Grad(vals, root, nil, ref.RuleAvg)
 		// ---- the real step ----
 		var l tensor.Tensor
+		trackData := r.Intn(4) // the data and label tensors of a step may themselves be tracked
 		stage := "Forward"
 		if pn := call(func() {
 			var y tensor.Tensor
-			y, err = fc.Forward(rt.MustLeaf(x, false))
+			y, err = fc.Forward(rt.MustLeaf(x, trackData&1 != 0))
 			if err != nil {
 				return
 			}
@@ -278,7 +279,7 @@ func c11History(k *fw.K, quick bool) {
 				}
 			}
 			stage = "loss"
-			if l, err = loss.Compute(y, rt.MustLeaf(t, false)); err != nil {
+			if l, err = loss.Compute(y, rt.MustLeaf(t, trackData&2 != 0)); err != nil {
 				return
 			}
 			stage = "BackPropagate"
